@@ -227,7 +227,7 @@ pub fn trace(o: &Opts) -> R<()> {
     let mut rng = StdRng::seed_from_u64(seed);
     let mut count = 0usize;
     let mut fams = std::collections::BTreeMap::new();
-    let mut put_whole = |ws: &mut Vec<Ndjson>, code: &[u8], src: &str, count: &mut usize| {
+    let put_whole = |ws: &mut Vec<Ndjson>, code: &[u8], src: &str, count: &mut usize| {
         let obs = observe(code);
         ws[*count % shards].put(&whole_record(code, &obs, src));
         *count += 1;
